@@ -757,7 +757,22 @@ class SymReal:
             return zreal(o)
         return None
 
+    @staticmethod
+    def _nonfinite(o):
+        return isinstance(o, float) and (o != o or o in (math.inf, -math.inf))
+
+    def _sign(self):
+        """fork on the sign of a finite symbolic real: -1, 0, 1"""
+        r = engine.cur()
+        if r.branch(self.t > 0):
+            return 1
+        if r.branch(self.t < 0):
+            return -1
+        return 0
+
     def __add__(self, o):
+        if self._nonfinite(o):
+            return o                      # finite + inf = inf, finite + nan = nan (IEEE)
         b = self._l(o)
         if b is None:
             return NotImplemented
@@ -766,18 +781,27 @@ class SymReal:
     __radd__ = __add__
 
     def __sub__(self, o):
+        if self._nonfinite(o):
+            return -o
         b = self._l(o)
         if b is None:
             return NotImplemented
         return SymReal(self.t - b)
 
     def __rsub__(self, o):
+        if self._nonfinite(o):
+            return o
         b = self._l(o)
         if b is None:
             return NotImplemented
         return SymReal(b - self.t)
 
     def __mul__(self, o):
+        if self._nonfinite(o):
+            if o != o:
+                return o
+            sg = self._sign()
+            return math.nan if sg == 0 else sg * o
         b = self._l(o)
         if b is None:
             return NotImplemented
@@ -786,6 +810,8 @@ class SymReal:
     __rmul__ = __mul__
 
     def __truediv__(self, o):
+        if self._nonfinite(o):
+            return o if o != o else 0.0
         b = self._l(o)
         if b is None:
             return NotImplemented
@@ -799,6 +825,13 @@ class SymReal:
         return SymReal(self.t / b)
 
     def __rtruediv__(self, o):
+        if self._nonfinite(o):
+            if o != o:
+                return o
+            sg = self._sign()
+            if sg == 0:
+                raise ZeroDivisionError("float division by zero")
+            return sg * o
         b = self._l(o)
         if b is None:
             return NotImplemented
